@@ -295,6 +295,18 @@ class TNCtor(TNCore):
         self.scribble(o, [v])
         return 'ok'
 
+    def op_share_copy(self, op):
+        """A user-built object that shares its tensor arrays (not its lists) with an existing one."""
+        src = self.pick(op['sel'])
+        if src is None or not all(isinstance(q, np.ndarray) for q in src.ref.qD):
+            return 'skipped'
+        cls = self.ptn.MPS if src.kind == 'mps' else self.ptn.MPO
+        new = cls(np.array(src.ref.qd), [np.array(q) for q in src.ref.qD], fill='postpone')
+        new.A = list(src.ref.A)
+        o = self.add_obj(src.kind, new, src.tag + '+shared')
+        self.probe('object_sharing_tensor_arrays')
+        return 'ok'
+
     def op_deepcopy(self, op):
         src = self.pick(op['sel'])
         if src is None:
